@@ -38,8 +38,8 @@ _ALL_CLASSES = {1: "get-then-forward", 2: "inherited-init-positional", 3: "pop-h
 # correspondence is judged against the repaired model (coq/Model/C13KwargsFx.v, judge_fx), the class is no longer a
 # listed finding and any recurrence is a VIOLATION. VERIF_C13_FIXED=key,key is a development aid to try a patched
 # scratch worktree (VERIF_REPO) without editing this table.
-FIXES_APPLIED = {"inherited-init-positional": False, "pop-hardcoded": False, "method-override": False,
-                 "cond-origin-crash": False}
+FIXES_APPLIED = {"inherited-init-positional": True, "pop-hardcoded": True, "method-override": True,
+                 "cond-origin-crash": True}  # /repo commits 0af5536, cf9a529, e1fd476, f42af31
 for _k in os.environ.get("VERIF_C13_FIXED", "").split(","):
     if _k.strip() in FIXES_APPLIED:
         FIXES_APPLIED[_k.strip()] = True
